@@ -544,7 +544,13 @@ unary_op!(
 
 unary_op!(
     minus,
-    (|a: I| Val::Int(-a), Int),
+    (
+        |a: I| match I::zero().checked_sub(&a) {
+            Some(res) => Val::Int(res),
+            None => Val::Error(exerr!("overflow in -{:?}", a)),
+        },
+        Int
+    ),
     (|a: F| Val::Float(-a), Float),
     (
         |a: ArrayType<F>| Val::Array(a.iter().map(|ai| -(*ai)).collect()),
